@@ -8,12 +8,18 @@ def check(run):
                 'UNNEST list} or a mistake in the query text / inconsistent input, table with the poison value at every position) enumerated by TLC; the expected error class, record number and '
                 'field come from Ref (first offending record in processing order); replayed into rbql.query; class via exception_to_error_info, record number / field parsed from the message; '
                 'parse errors must precede any write (TLC monitor); field-count warning numbers compared for header-less full scans; non-trivial = >= 2 input records and (>= 1 output row or an error)')
-    run.assumptions = ['poison = a value-dependent raising expression whose own message has no digits', 'warning kinds None-in-output / delimiter-in-simple-output / BOM / malformed quoting are exercised with the CSV specifications (C10, C12)']
+    run.assumptions = ['poison = a value-dependent raising expression whose own message has no digits']
     ec.run_family(run, 'C14-poison', 'Q_C14', 'R_poison', maxA=3 if quick else 4, opts={'warnings': True})
     ec.run_family(run, 'C14-ragged', 'Q_C14rag', 'R_w2N' if not quick else 'R_q4', maxA=2 if quick else 3, opts={'warnings': True})
     ec.run_family(run, 'C14-join', 'Q_C14join', 'R_poison' if quick else 'R_w2', recsB='R_w2N' if not quick else 'R_q4', maxA=2, maxB=2, opts={'warnings': True})
     ec.run_family(run, 'C14-text', 'Q_C14text', 'R_poison', maxA=2, hdrmodes=(False, True))
     ec.run_family(run, 'C14-text-join', 'Q_C14textjoin', 'R_2x2', recsB='R_2x2', maxA=1, maxB=1, hdrmodes=(False, True))
+    # warnings that belong to the CSV layer, each reported iff the condition occurred: None written to CSV and the delimiter inside
+    # simple-policy output (CsvCodec: flags compared with WriteTable's, exact for single-character delimiters), BOM and malformed
+    # quoting (CsvReader / RefRead: bom and first-defective-line compared under every delivery schedule)
+    from . import c10, c12
+    c10.mc_and_replay(run, 'C14-none-and-separator-warnings', 'R_none', 2, ['simple', 'quoted', 'quoted_rfc'], 44, 0)
+    c12.mc_and_replay(run, 'C14-bom-and-malformed-quoting', [97, 65279, 34, 10, 44], 3 if quick else 4, 'utf-8', policies=['quoted', 'quoted_rfc'], cmts=[0])
     run.exhaustive = True
 
 
